@@ -102,7 +102,17 @@ class NarwhalsMaterializer(FormulaMaterializer):
         if drop_rows:
             values = drop_nulls(values, indices=drop_rows)
         if nw.dependencies.is_narwhals_series(values):
-            values = values.to_pandas()
+            if values.dtype == nw.Categorical:
+                # Keep the declared categories (and their order): converting an
+                # Arrow dictionary column to pandas decodes it to plain strings.
+                values = pandas.Series(
+                    pandas.Categorical(
+                        values.to_list(),
+                        categories=values.cat.get_categories().to_list(),
+                    )
+                )
+            else:
+                values = values.to_pandas()
 
         return as_columns(
             encode_contrasts(
